@@ -7,6 +7,7 @@
 -/
 import GHEVerif.Lemmas.Search
 import GHEVerif.Lemmas.SearchNested
+import GHEVerif.Lemmas.SearchRowWise
 
 namespace GHEVerif.C01
 open GHEVerif GHEVerif.Search
@@ -105,6 +106,69 @@ theorem bisectZD_selected_feasible (nc : List (List Nat)) (E2 : Nat → Nat → 
   obtain ⟨e, _, ⟨h1, p, tr', hs⟩, _⟩ := bisectZD_selected h
   exact ⟨e, p, h1, fun hne => bisect1D_selected_feasible _ _ cfg k h1 p tr' hs hne,
     fun hp => bisect1D_escape_needs_flag _ _ cfg k h1 p tr' hs hp⟩
+
+/-! ### RowWise search (`RowWiseModifiedBisectionSearch.search`) -/
+
+/-- Whatever the excess function (no monotonicity in the spacing assumed), the field the RowWise
+    search returns meets the limits at maximum height (`≤ 0`), unless it is the
+    `continue_if_design_unmet` escape, which needs the flag and both end fields failing. -/
+theorem rowwise_selected_feasible (Es : Rat → Rat) (nb : Rat → Nat) (szs : Rat → Rat) (E1 : Rat)
+    (Esub : Nat → Rat) (c : RWCfg) (f : RWSel) (esc : Bool) (tr : List RWEval)
+    (h : rowwiseSearch Es nb szs E1 Esub c = (.selected f esc, tr)) :
+    (esc = true ∧ c.cont = true ∧ f = .atSpacing c.start ∧ 0 < Es c.start ∧ 0 < Es c.stop) ∨
+    (esc = false ∧ rwExcess Es E1 Esub f ≤ 0) := by
+  unfold rowwiseSearch at h
+  simp only at h
+  by_cases c1 : Es c.start > 0 ∧ Es c.stop > 0
+  · simp only [c1, and_self, if_true] at h
+    by_cases hc : c.cont = true
+    · simp only [hc, if_true] at h
+      injection h with h1 _; injection h1 with e1 e2
+      left; exact ⟨e2.symm, hc, e1.symm, c1.1, c1.2⟩
+    · simp [hc] at h
+  · simp only [c1, if_false] at h
+    by_cases c2 : Es c.start < 0 ∧ 0 < Es c.stop
+    · simp only [c2, and_self, if_true] at h
+      right
+      generalize hb : rwBisect Es c.maxIter
+        { hi := c.start, lo := c.stop, lowE := Es c.start, highE := Es c.stop, m := (c.stop + c.start) / 2,
+          trace := [.sp c.start, .sp c.stop] } = b at h
+      have hhi : Es b.hi ≤ 0 := by
+        rw [← hb]; exact rwBisect_hi Es _ _ (le_of_lt c2.1)
+      cases hs : rwSweep Es nb szs
+          ((List.range 11).map (fun (k : Nat) => b.hi + (k : Nat) * (c.step / 10))) none with
+      | none => simp [hs] at h
+      | some st =>
+        obtain ⟨s, t⟩ := st
+        simp only [hs] at h
+        injection h with h1 _; injection h1 with e1 e2
+        refine ⟨e2.symm, ?_⟩
+        rw [← e1]
+        simp only [rwExcess]
+        refine rwSweep_feasible Es nb szs _ none (by intro s t e; cases e) ?_ s t hs
+        intro _ t0 rest ht
+        have : (List.range 11).map (fun (k : Nat) => b.hi + (k : Nat) * (c.step / 10))
+            = (b.hi + ((0 : Nat) : Rat) * (c.step / 10)) ::
+              (List.range' 1 10).map (fun (k : Nat) => b.hi + (k : Nat) * (c.step / 10)) := by
+          rfl
+        rw [this] at ht
+        injection ht with ht _
+        rw [← ht]; simpa using hhi
+    · simp only [c2, if_false] at h
+      by_cases c3 : Es c.stop < 0 ∧ Es c.start < 0
+      · simp only [c3, and_self, if_true] at h
+        right
+        by_cases c4 : E1 ≤ 0
+        · simp only [c4, if_true] at h
+          injection h with h1 _; injection h1 with e1 e2
+          exact ⟨e2.symm, by rw [← e1]; simpa [rwExcess] using c4⟩
+        · simp only [c4, if_false] at h
+          injection h with h1 _; injection h1 with e1 e2
+          refine ⟨e2.symm, ?_⟩
+          rw [← e1]
+          exact rwRemove_sel Es E1 Esub _ _ (by simpa [rwExcess] using le_of_lt c3.1)
+      · simp [c3] at h
+
 
 /-! ### the height root solve (`utilities.solve_root` as used by `GHE.size`) -/
 
